@@ -333,9 +333,15 @@ void AbstractDiscreteDistribution::discretizeEqualProportions()
 
       double mean = Expectation(intMinMax_->getUpperBound()) - Expectation(intMinMax_->getLowerBound());
 
-      for (i = 0; i < numberOfCategories_; i++)
+      // the proportionality factor is only defined when the sum of the medians and the mean have the same sign
+      // (not for a parent whose mean over the domain is zero, as a centred Gaussian)
+      double factor = mean / t / ec;
+      if (t != 0 && factor > 0 && factor < NumConstants::VERY_BIG())
       {
-        values[i] *= mean / t / ec;
+        for (i = 0; i < numberOfCategories_; i++)
+        {
+          values[i] *= factor;
+        }
       }
     }
     else
